@@ -72,7 +72,7 @@ func MkConfig(avs []AutoVar) parser.CommandConfig {
 
 // CompileSimple compiles with a config made of avs and the given switches
 // (parallel key/value slices).
-func CompileSimple(src string, optimize, lm bool, path string, avs []AutoVar, swKeys, swVals []string, lint bool) (string, error) {
+func CompileSimple(src string, optimize, lm bool, path string, avs []AutoVar, swKeys, swVals []string, lint bool, fontID string) (string, error) {
 	var sw map[string]string
 	if len(swKeys) > 0 {
 		sw = map[string]string{}
@@ -80,7 +80,8 @@ func CompileSimple(src string, optimize, lm bool, path string, avs []AutoVar, sw
 			sw[swKeys[i]] = swVals[i]
 		}
 	}
-	return Compile(src, Options{Optimize: optimize, LineMarkers: lm, Path: path, Switches: sw, Config: MkConfig(avs), Lint: lint, FontPath: "font_config.json"})
+	StubFont, StubFontErr = parser.FontConfig{}, nil
+	return Compile(src, Options{Optimize: optimize, LineMarkers: lm, Path: path, Switches: sw, Config: MkConfig(avs), Lint: lint, FontPath: "font_config.json", FontID: fontID})
 }
 
 // Lex returns all tokens of src up to and including EOF.
@@ -122,4 +123,19 @@ func CompileFormat(src string, cliFont string, cliMaxLen int, f1 [3]int, f2 [3]i
 	}}
 	StubFontErr = nil
 	return Compile(src, Options{FontPath: "stub", FontID: cliFont, MaxLen: cliMaxLen})
+}
+
+// CompileFonts compiles src with an explicit font config (parallel slices
+// per font; the engine may pass symbolic widths).
+func CompileFonts(src string, defaultFont string, names []string, keys [][]string, widths [][]int, maxLen []int, numLines []int, optimize bool) (string, error) {
+	fc := parser.FontConfig{DefaultFontID: defaultFont, Fonts: map[string]parser.Fonts{}}
+	for i, n := range names {
+		w := map[string]int{}
+		for j, k := range keys[i] {
+			w[k] = widths[i][j]
+		}
+		fc.Fonts[n] = parser.Fonts{Widths: w, MaxLineLength: maxLen[i], NumLines: numLines[i]}
+	}
+	StubFont, StubFontErr = fc, nil
+	return Compile(src, Options{FontPath: "stub", Optimize: optimize})
 }
